@@ -181,10 +181,20 @@ def impl(case):
             e = 'TypeError|ValueError'      # the order of two independent validations is not part of the property
         return [e, 'clean' if (r['clean'] or r['only_units_name']) else 'dirty']
     t = r['target']
-    return ['ok', KINDS[np.asarray(t._values_).dtype.kind], sorted(t._derivs_.keys())]
+    return ['ok', KINDS[np.asarray(t._values_).dtype.kind], sorted(str(k) for k in t._derivs_.keys())]
 
 
 # --------------------------------------------------------------------------- direct oracle (independent of the model)
+def must_reject_badkey(case):
+    # a key that is not a string cannot become the attribute d_d<key>: inserting under it cannot be carried out
+    # (delete_deriv of an absent key is a documented no-op)
+    if case['meth'] == 'delete_deriv':
+        return []
+    if case['meth'] == 'rename_deriv' and 't' not in case['target'].get('derivs', {}):
+        return []                      # nothing to rename: the object itself is returned
+    return ['type']
+
+
 def must_reject(case):
     """fault classes of this case for which the property unarguably demands a rejection"""
     mut, fl, a = case['mut'], case['faults'], case.get('arg')
@@ -228,6 +238,9 @@ def oracle(case):
     r = R.run_case(case)
     mut, fl = case['mut'], '+'.join(case['faults']) or 'valid'
     cls = case['target']['cls']
+    if mut == 'badkey':
+        mut = 'badkey.%s.%s' % (case['meth'], case['keykind'])
+        cls = cls + ('.' + case['const'] if case.get('const') else '')
     if r['exc'] is not None:
         if r['exc'].startswith(('Other', 'Warn')):
             return ('exc:%s:%s:%s:%s' % (mut, r['etype'], fl, cls),
@@ -244,7 +257,10 @@ def oracle(case):
         if case['faults'] == ['index'] and r['exc'] != 'IndexError':
             return ('index-exc:%s:%s' % (r['etype'], cls), 'an invalid index raised %s, not IndexError' % r['etype'])
         return None
-    need = must_reject(case) if mut not in G.NONMUT else []     # non-mutating: exception family and operands only
+    if case['mut'] == 'badkey':
+        need = must_reject_badkey(case)
+    else:
+        need = must_reject(case) if mut not in G.NONMUT else []     # non-mutating: exception family and operands only
     if need:
         wf = R.wellformed(r['target'])
         return ('accepted:%s:%s:%s%s' % (mut, '+'.join(need), cls, ':malformed' if wf else ''),
@@ -256,6 +272,10 @@ def oracle(case):
 def mk(case):
     case['req'] = request(case) if case['mut'] != 'kw' else None
     case['kind'] = case['mut'] + ':' + ('+'.join(case['faults']) or 'valid') if case['mut'] != 'kw' else 'kw:' + case['name'].split(':')[0]
+    if case['mut'] == 'badkey':
+        case['kind'] = 'badkey:' + case['meth']
+        case['id'] = 'badkey:%s:%s:%s:%s:%s' % (case['meth'], case['keykind'], case['target']['cls'],
+                                                 case['target']['shape'], case.get('const') or case['target']['ro'])
     case['nontrivial'] = bool(case.get('faults')) or bool(case.get('target', {}).get('derivs')) or case['mut'] == 'kw'
     if case['mut'] == 'kw':
         case['id'] = case['name']
